@@ -1009,11 +1009,10 @@ def codec_obligations(fside: dict, glue: dict) -> dict[str, tuple[str, str, tupl
     return out
 
 
-def codec_stage(ck: Ck) -> dict[str, bool]:
-    """Regenerate C11's view codecs from today's bsp.py and discharge the per-view codec premises."""
+def codec_stage(ck: Ck, ok_f: bool, ok_g: bool) -> dict[str, bool]:
+    """Discharge the per-view codec premises over C11's view codecs as regenerated from today's bsp.py (run: before the first build,
+    so that every Gen file this check needs exists when make computes its dependencies)."""
     from checks import c11 as C11
-    ok_f = ck.translate('BspFormats_gen', c11_formats.translate)
-    ok_g = ck.translate('BspGlue_gen', c11_glue.translate)
     tr = ck.extra.get('translated', {})
     if not (ok_f and ok_g and ck.build(['Gen/BspFormats_gen.vo', 'Gen/BspGlue_gen.vo', 'SM/LazyLumpsCodec.vo', 'SM/LazyLumpsRecCodec.vo'])):
         return {}
@@ -1092,6 +1091,8 @@ def run(ck: Ck) -> None:
     tm = ck.extra.setdefault('timing_s', {})
     t0 = time.time()
     ok_t = ck.translate('BspGraph_gen', c10_bspgraph.translate)
+    ok_f = ck.translate('BspFormats_gen', c11_formats.translate)
+    ok_g = ck.translate('BspGlue_gen', c11_glue.translate)
     tm['translate'] = round(time.time() - t0, 1)
     side = ck.extra.get('translated', {}).get('BspGraph_gen')
     built = ok_t and ck.build(['Props/C10.vo', 'Gen/BspGraph_gen.vo'])
@@ -1163,7 +1164,7 @@ def run(ck: Ck) -> None:
         })
     tm['translate+build+obligations'] = round(time.time() - t0, 1)
     t0 = time.time()
-    codec = codec_stage(ck) if built else {}
+    codec = codec_stage(ck, ok_f, ok_g) if built else {}
     tm['codec_premises'] = round(time.time() - t0, 1)
     t0 = time.time()
     # ---------------------------------------------------------------------------- inputs
